@@ -31,7 +31,7 @@ ASSUMPTIONS = [
 # arguments whose equally named attribute has other semantics, or that are consumed (not stored) by the constructor
 SKIP_ARGS = {
     ("Annotation", "parent"), ("Paragraph", "text_or_element"), ("Paragraph", "formatted"),
-    ("ListItem", "text_or_element"), ("List", "list_content"), ("Span", "formatted"), ("Header", "formatted"),
+    ("Span", "formatted"), ("Header", "formatted"),
     ("UserDefined", "from_document"), ("Style", "area"), ("AnnotationEnd", "annotation"), ("Cell", "text"), ("Cell", "cell_type"),
     ("Cell", "currency"), ("Row", "width"), ("RowGroup", "height"), ("RowGroup", "width"), ("Table", "width"), ("Table", "height"),
     ("IndexTitle", "title_text"), ("IndexTitle", "title_text_style"), ("TOC", "title"), ("TOC", "title_style"), ("TOC", "entry_style"),
@@ -42,6 +42,8 @@ SKIP_ARGS = {
 }
 # argument -> how to observe it when no equally named property exists
 OBSERVE = {
+    ("List", "list_content"): lambda e: [i.text_content for i in e.get_items()],
+    ("ListItem", "text_or_element"): lambda e: e.text_content,
     ("Annotation", "text_or_element"): lambda e: e.note_body,
     ("Frame", "position"): lambda e: e.position,
     ("Frame", "size"): lambda e: e.size,
@@ -65,6 +67,10 @@ TEXTS = ["abc", "N_1", "a b", "é<&>", "x'y", "Standard", "id9"]
 def arg_strategy(cls_name, pname, ann, default):
     a = str(ann)
     p = pname
+    if cls_name == "List" and p == "list_content":
+        # documented as str | Element | Iterable[str | Element]: every iterable shape, the one-shot ones included
+        return st.sampled_from(["one item", "$element:paragraph", "$list:a|b c|d", "$tuple:a|b", "$iter:a|b|c", "$gen:x|y", "$map:p|q", "$list:",
+                                "$elements:e1|e2"])
     if p == "text_or_element" or (cls_name == "Note" and p == "body"):
         # documented as "str or element": both shapes
         return st.sampled_from(["plain body", "$element:paragraph"])
@@ -137,6 +143,13 @@ def arg_strategy(cls_name, pname, ann, default):
 def same(supplied, observed):
     if observed is None:
         return False
+    if isinstance(supplied, str) and supplied.startswith(("$list:", "$tuple:", "$iter:", "$gen:", "$map:", "$elements:")):
+        body_ = supplied.partition(":")[2]
+        return list(observed) == ([x for x in body_.split("|") if x] if body_ else [])
+    if supplied == "one item":
+        return observed == "one item" or list(observed) == ["one item"]
+    if supplied == "$element:paragraph":
+        return "elem body" in str(observed)
     if hasattr(supplied, "serialize"):  # an element given as body: its text must be there
         return "elem body" in str(observed)
     if isinstance(supplied, bool):
@@ -192,6 +205,14 @@ def build(cls, kwargs):
             from odfdo import Paragraph
 
             kw[k_] = Paragraph("elem body")
+        elif isinstance(v_, str) and v_.startswith(("$list:", "$tuple:", "$iter:", "$gen:", "$map:", "$elements:")):
+            from odfdo import Paragraph
+
+            kind_, _, body_ = v_.partition(":")
+            items_ = [x for x in body_.split("|") if x] if body_ else []
+            kw[k_] = {"$list": lambda: list(items_), "$tuple": lambda: tuple(items_), "$iter": lambda: iter(items_),
+                      "$gen": lambda: (x for x in items_), "$map": lambda: map(str, items_),
+                      "$elements": lambda: [Paragraph(x) for x in items_]}[kind_]()
     if name == "Style" and "family" not in kw:
         kw["family"] = "paragraph"
     if name == "Table" and "name" not in kw:
@@ -226,6 +247,8 @@ def check_instance(ctx, tag, cls, kwargs, case):
     for p, v in kw.items():
         if (cname, p) in SKIP_ARGS or v is None:
             continue
+        if isinstance(kwargs.get(p), str) and kwargs[p].startswith("$") and kwargs[p] != "$element:paragraph":
+            v = kwargs[p]  # the description of the iterable, not the (consumed) iterable itself
         if v is False and not (cname == "Table" and p == "printable"):
             continue  # arguments documented as ignored when falsy
         if cname == "Table" and p == "printable" and v is True:
